@@ -74,8 +74,12 @@ def meta_events(draw, max_tick=200, max_events=3, unit=1, with_noise=False, tick
         if kind == "ts":
             prev = [e for e in ev if e[0] == "ts"]
             # sometimes restate an earlier value, sometimes one of the library's defaults (8/8, 4/4)
+            same_ratio = [(n * f, d * f) for _, _, n, d in prev for f in (2, 4) if d * f <= 16 and n * f <= 16] + \
+                         [(n // f, d // f) for _, _, n, d in prev for f in (2, 4) if n % f == 0 and d // f >= 2 and d % f == 0]
             val = draw(st.one_of(st.tuples(st.integers(1, 16), st.sampled_from(DENOMS)), st.sampled_from([(8, 8), (4, 4)]),
-                                 st.sampled_from([(e[2], e[3]) for e in prev]) if prev else st.just((4, 4))))
+                                 st.sampled_from([(e[2], e[3]) for e in prev]) if prev else st.just((4, 4)),
+                                 # a different signature with the same ratio as an earlier one (3/4 -> 6/8)
+                                 st.sampled_from(same_ratio) if same_ratio else st.just((2, 2))))
             ev.append(["ts", t, val[0], val[1]])
         elif kind == "ks":
             prev = [e[2] for e in ev if e[0] == "ks"]
@@ -107,6 +111,8 @@ def seqspec(draw, notes=None, meta=None, pad=True, allow_post=True, **kw):
     ms = draw(meta if meta is not None else meta_events())
     spec = {"notes": ns, "meta": ms}
     spec.update(draw(route(allow_post=allow_post)))
+    if draw(st.integers(0, 3)) == 0:
+        spec["off_vel"] = draw(st.lists(st.sampled_from([None, 0, 64, 127]), min_size=1, max_size=3))
     end = max([n[3] for n in ns] + [m[1] for m in ms] + [0])
     if pad and draw(st.booleans()):
         spec["pad"] = end + draw(st.one_of(st.just(0), st.integers(0, 50)))
